@@ -284,6 +284,51 @@ func UndoStores(p *load.Program, r *report.Report, rule string, want func(f *typ
 				continue
 			}
 			r.OK(rule, key, pos, fmt.Sprintf("m.%s is written back from the value loaded from m.%s itself before %s, with nothing that changes it in between", f.Name(), f.Name(), shortCallee(&calls[0].Call)))
+			// a version number goes back together with the dirty flag its generator cleared: restoring the version alone
+			// makes the next emission carry the changed content under the old version_number
+			if counterClass(f) == "version" {
+				for _, c := range calls {
+					g := c.Call.StaticCallee()
+					var flags []*types.Var
+					for uf := range u.eff[g] {
+						if b, ok := uf.Type().Underlying().(*types.Basic); ok && b.Kind() == types.Bool {
+							flags = append(flags, uf)
+						}
+					}
+					sort.Slice(flags, func(i, j int) bool { return flags[i].Pos() < flags[j].Pos() })
+					for _, uf := range flags {
+						found := false
+						for _, b := range s.Fn.Blocks {
+							for _, in := range b.Instrs {
+								us, ok := in.(*ssa.Store)
+								if !ok || !AddrPath(us.Addr).Is(m, uf) {
+									continue
+								}
+								if ok, _ := u.validRestore(us, m, uf, c); !ok {
+									continue
+								}
+								if us.Block() == st.Block() || us.Block().Dominates(st.Block()) {
+									found = true
+									continue
+								}
+								// every way out of the function from the version restore passes the flag restore
+								post := true
+								for _, ret := range ssau.Returns(s.Fn) {
+									if reachesAvoiding(st.Block(), ret.Block(), us.Block()) {
+										post = false
+									}
+								}
+								if post {
+									found = true
+								}
+							}
+						}
+						fkey := fmt.Sprintf("%s/undo[%s]/with-flag[%s]/after[%s]", fname, f.Name(), uf.Name(), shortCallee(&c.Call))
+						r.Check(found, rule, fkey, pos, fmt.Sprintf("the rollback of m.%s after %s comes with the rollback of m.%s, which %s cleared", f.Name(), shortCallee(&c.Call), uf.Name(), shortCallee(&c.Call)),
+							fmt.Sprintf("m.%s is rolled back after %s but the dirty flag m.%s that %s cleared is not: the next emission carries the changed table under the old version number", f.Name(), shortCallee(&c.Call), uf.Name(), shortCallee(&c.Call)))
+					}
+				}
+			}
 		}
 	}
 }
